@@ -90,9 +90,9 @@ func ExploreScenario(r *verifmc.Run, sc Scenario, bound int) Stats {
 		}
 		return "", ""
 	}
-	budget := 4000 // projected executions allowed for going one bound deeper
+	budget := 3000000 // projected scheduling steps allowed for going one bound deeper
 	if r.Thorough() {
-		budget = 400000
+		budget = 150000000
 	}
 	if v := os.Getenv("VERIF_SCHED_BUDGET"); v != "" {
 		budget, _ = strconv.Atoi(v)
@@ -131,10 +131,11 @@ func ExploreScenario(r *verifmc.Run, sc Scenario, bound int) Stats {
 	var st Stats
 	completed := -1
 	for b := 0; b <= bound; b++ {
-		if b >= 2 {
-			// executions grow roughly by a factor (#points) per extra preemption
-			proj := st.Executions * (st.MaxPoints + 1) / b
+		if b >= 1 {
+			// executions grow roughly by a factor (#points) per extra preemption; each costs #points steps
+			proj := st.Executions * (st.MaxPoints + 1) / b * (st.MaxPoints + 1)
 			if proj > budget {
+				r.Cap(fmt.Sprintf("%s: preemption bound %d not attempted (projected %d scheduling steps > budget %d)", sc.Name, b, proj, budget))
 				break
 			}
 		}
